@@ -225,8 +225,8 @@ def same_val(impl, model):
 def observe(data, est, **params):
     """Run the real discover_network under instrumentation. Returns a dict of observations
     (or {'error': ExceptionType} when it raises)."""
-    from causationentropy.core.discovery import discover_network
-
+    from common import EntryPoints
+    discover_network = EntryPoints("discover_network", "causationentropy.core.discovery", "causationentropy.core", "causationentropy")   # every public path, in turn
     with instrumented(est) as obs, quiet():
         try:
             G = discover_network(data, **params)
